@@ -65,7 +65,7 @@ fn over_reporting_reader_never_yields_unwritten_bytes() {
 			let mut honest = Vec::new();
 			let honest_res = xt::translate_reader(input, from, Format::Json, &mut honest);
 			for lie_on in 1..=5 {
-				for excess in [1usize, 4, 3, 64] {
+				for excess in [1usize, 4, 3, 64, 1 << 30] {
 					for chunk in [1usize, 3, usize::MAX] {
 						runs += 1;
 						let mut out = Vec::new();
